@@ -48,8 +48,10 @@ void QXmppRemoteMethod::gotResult(const QXmppRpcResponseIq &iq)
     if (iq.id() == m_payload.id()) {
         m_result.hasError = false;
         // FIXME: we don't handle multiple responses
-        const auto values = iq.values();
-        m_result.result = values.first();
+        // a response without any value leaves the result invalid
+        if (const auto values = iq.values(); !values.isEmpty()) {
+            m_result.result = values.first();
+        }
         Q_EMIT callDone();
     }
 }
